@@ -205,7 +205,9 @@ class C15(Check):
             cuts = sorted({0.0, t_end, *(float(k * step) for k in range(nrun + 1)), *(min(max(v, 0.0), t_end) for b3 in burns for v in b3[:2]),
                            *(ti for ti, _e in impulses if 0.0 < ti <= t_end)})
             # an impulse that coincides with a thrust boundary (or, to the resolution of Julian dates, with an epoch) can legitimately act just before or just after it: not judged
-            fuzzy_imp = any(abs(ti - v) < 1e-3 for ti, _e in impulses for b3 in burns for v in b3[:2]) or any(0 < abs(ti / step - round(ti / step)) * step < 1e-3 for ti, _e in impulses)
+            fuzzy_imp = any(0 < abs(ti - v) < 1e-3 for ti, _e in impulses for b3 in burns for v in b3[:2]) or any(0 < abs(ti / step - round(ti / step)) * step < 1e-3 for ti, _e in impulses)
+            if any(ti == v for ti, _e in impulses for b3 in burns for v in b3[:2]):
+                cnt["impulse_exactly_on_a_thrust_boundary"] = 1
             ref = {0: x0}
             ref_before = {}
             x = x0.copy()
